@@ -14,7 +14,7 @@ for s in "$@"; do
   [ -f "/verif/seeded/$s/patch.diff" ] || continue
   ID=$(python3 -c "import json;print(json.load(open('/verif/seeded/$s/meta.json'))['property'])")
   IDS="${SEED_CHECKS:-$ID}"
-  git -C $W/repo apply "/verif/seeded/$s/patch.diff" || { echo "$s: patch does not apply"; continue; }
+  git -C $W/repo apply "/verif/seeded/$s/patch.diff" 2>/dev/null || git -C $W/repo apply --3way "/verif/seeded/$s/patch.diff" 2>/dev/null || (cd $W/repo && patch -p1 -F3 -s < "/verif/seeded/$s/patch.diff") || { echo "$s: patch does not apply"; continue; }
   for C in $IDS; do
     out=$($W/run "$C" --tier "$TIER" 2>&1); rc=$?
     sig=$(echo "$out" | grep -m1 "signature=" | sed 's/^ *//' | cut -c1-300)
@@ -30,5 +30,5 @@ m["detected_by"]=d
 json.dump(m,open(p,"w"),indent=1)
 PY
   done
-  git -C $W/repo checkout -q -- .
+  git -C $W/repo checkout -q -- . ; git -C $W/repo reset -q ; git -C $W/repo clean -qfd -e target
 done
